@@ -1,0 +1,12 @@
+//go:build verif
+
+package bloom
+
+// VerifBitIndex exposes (*Filter).hash to the verification harness: the bit
+// offset selected by hash function hashNum for data.  Only meaningful on a
+// loaded filter with a non-empty bit array.
+func (bf *Filter) VerifBitIndex(hashNum uint32, data []byte) uint32 {
+	bf.mtx.Lock()
+	defer bf.mtx.Unlock()
+	return bf.hash(hashNum, data)
+}
